@@ -6,6 +6,7 @@ package main
 
 import (
 	"fmt"
+	"regexp"
 	"strconv"
 	"strings"
 	"unicode"
@@ -78,6 +79,47 @@ func paramRec(p any) map[string]any {
 	return map[string]any{"ty": fmt.Sprintf("%T", p), "codes": []int{}, "text": ""}
 }
 
+// listForm: the quoted value as one item of a value list, f:(<first> OR "w" OR zz) - first is the same text typed bare when
+// that is a number (so that the list holds 7 and "7"), else the word yy.  Records the items of the IN node and the parameters.
+var bareNumber = regexp.MustCompile(`^-?[0-9][0-9a-zA-Z._]*$`)
+
+func listForm(r *recorder, w string) map[string]any {
+	first := "yy"
+	if looksNumeric(w) && bareNumber.MatchString(w) { // typed bare it is one number token
+		first = w
+	}
+	q := "f:(" + first + " OR \"" + w + "\" OR zz)"
+	pr := r.record(0, q, "")
+	items := []any{}
+	if its, ok := pr.Tree["items"].([]any); ok {
+		for _, it := range its {
+			t, _ := it.(Tree)
+			rec := map[string]any{"op": "NIL", "ty": "", "codes": []int{}}
+			if t != nil {
+				rec["op"], rec["ty"] = t["op"], t["ty"]
+				if v, isStr := t["v"].(string); isStr {
+					rec["codes"] = codes(v)
+				}
+			}
+			items = append(items, rec)
+		}
+	}
+	out := map[string]any{"q": q, "outcome": pr.Outcome, "top": pr.Tree["op"], "items": items}
+	var params []any
+	sqlp := guard(func() (string, int, error) {
+		s, ps, err := lucene.ToParameterizedPostgres(q)
+		params = ps
+		return s, len(ps), err
+	})
+	out["par_out"] = sqlp.Out
+	prs := []any{}
+	for _, p := range params {
+		prs = append(prs, paramRec(p))
+	}
+	out["params"] = prs
+	return out
+}
+
 // valueForms records everything C08 looks at for one query text.
 func valueForms(r *recorder, q string) map[string]any {
 	pr := r.record(0, q, "")
@@ -146,7 +188,7 @@ func cmdQuoteEnum(args []string) {
 		if looksNumeric(w) { // the number spelled bare is rendered first: nothing of that call may show in the quoted one
 			valueForms(r, "f:"+w)
 		}
-		line := map[string]any{"id": id, "wsyms": append([]string{}, seq...), "w": codes(w), "quoted": valueForms(r, `f:"`+w+`"`)}
+		line := map[string]any{"id": id, "wsyms": append([]string{}, seq...), "w": codes(w), "quoted": valueForms(r, `f:"`+w+`"`), "listed": listForm(r, w)}
 		applicable := w != "" && !looksNumeric(w) && !isKeyword(w)
 		line["esc_applicable"] = applicable
 		if applicable {
